@@ -154,19 +154,18 @@ fn field_alts(kind: Kind, p: &[&Part], adjacent: bool) -> Vec<Alt> {
         }
         _ => {
             let all_files = p.iter().all(|q| q.is_file());
-            let any_empty = p.iter().any(|q| q.is_empty_file_input());
             let all_empty = p.iter().all(|q| q.is_empty_file_input());
+            let filled: Vec<&&Part> = p.iter().filter(|q| !q.is_empty_file_input()).collect();
+            let _ = adjacent;
             match kind {
-                Kind::VF if all_files => {
-                    let list: Vec<FileExp> = p.iter().filter(|q| !q.is_empty_file_input()).map(|q| fe(q)).collect();
-                    // one input with several files = adjacent parts: order must be kept.  Same-name parts that are not
-                    // adjacent, or an empty input next to a filled one, are two inputs sharing a name: silent (an error,
-                    // the filled ones in order, or all of them in order with the empty input as an empty file).
-                    if !any_empty && adjacent { vec![V(FieldExp::VF(list))] }
-                    else if any_empty { vec![E, V(FieldExp::VF(list)), V(FieldExp::VF(p.iter().map(|q| fe(q)).collect()))] }
-                    else { vec![E, V(FieldExp::VF(list))] }
-                }
-                Kind::OF if all_empty => vec![E, V(FieldExp::OF(None))],
+                // "several files under one name kept in submission order", "an empty file input decodes to an absent/empty value":
+                // the files of all inputs sharing the name, in submission order, adjacent or not, empty inputs contributing nothing
+                // (the builder's first oracle admitted an error for non-adjacent parts and for an empty input next to a filled one;
+                // the implementation then turned out to depend on the *order* of the two, which no reading admits)
+                Kind::VF if all_files => vec![V(FieldExp::VF(filled.iter().map(|q| fe(q)).collect()))],
+                // several inputs for a single-valued field: silent (an error, or the one file that was really submitted)
+                Kind::OF if all_files && filled.len() <= 1 => vec![E, V(FieldExp::OF(filled.first().map(|q| fe(q))))],
+                Kind::F if all_files && filled.len() == 1 => vec![E, V(FieldExp::F(fe(filled[0])))],
                 Kind::OS if all_empty => vec![E, V(FieldExp::OS(None))],
                 _ => vec![E],   // several values for a single-valued field, or texts mixed with files: does not fit
             }
@@ -232,13 +231,13 @@ fn judge(exp: &Expect, obs: &Observed, t: &TargetDesc) -> Verdict {
         Observed::Abort(s) => Verdict::Violation { field: None, symptom: format!("abort:{s}") },
         Observed::Err(_) => {
             let must = exp.fields.iter().any(|alts| alts.iter().all(|a| matches!(a, Alt::Err)));
-            let may = must || exp.unknown || exp.empty_form || exp.fields.iter().any(|alts| alts.iter().any(|a| matches!(a, Alt::Err)));
+            let may = must || exp.unknown || exp.fields.iter().any(|alts| alts.iter().any(|a| matches!(a, Alt::Err)));
             if !may { return Verdict::Violation { field: None, symptom: "refused-should-accept".into() } }
             Verdict::Pass { ambiguous: !must, key: format!("err:{tid}") }
         }
         Observed::Val(v) => {
             if v.len() != exp.fields.len() { return Verdict::Violation { field: None, symptom: "wrong-field-count".into() } }
-            let mut ambiguous = exp.unknown || exp.empty_form;
+            let mut ambiguous = exp.unknown;
             for (i, (alts, o)) in exp.fields.iter().zip(v).enumerate() {
                 let vals: Vec<&FieldExp> = alts.iter().filter_map(|a| match a { Alt::Val(e) => Some(e), Alt::Err => None }).collect();
                 if vals.is_empty() { return Verdict::Violation { field: Some(i), symptom: "accepted-should-refuse".into() } }
@@ -264,7 +263,7 @@ fn show_expect(exp: &Expect) -> String {
         Alt::Val(FieldExp::OF(Some(e))) => format!("Some({})", f(e)),
         Alt::Val(FieldExp::VF(v)) => format!("[{}]", v.iter().map(f).collect::<Vec<_>>().join(", ")),
     }).collect::<Vec<_>>().join(" | ")).collect();
-    format!("fields: ({}){}{}", fields.join("; "), if exp.unknown { " | Err (undeclared part present)" } else { "" }, if exp.empty_form { " | Err (no part at all)" } else { "" })
+    format!("fields: ({}){}{}", fields.join("; "), if exp.unknown { " | Err (undeclared part present)" } else { "" }, if exp.empty_form { " (the form without fields)" } else { "" })
 }
 
 /* =============================== classification =============================== */
